@@ -418,9 +418,8 @@ def childOp (kind : String) (ws ows : List String) : String :=
           if implErr == (rr.isEmpty || !(all.contains rr) || s.has name) then [] else ["child_add_iff"])
       | "childupd" =>
         (processChildUpdateResources all s name rr,
-          (if implErr == (!(all.contains rr) || !(s.has name)) then [] else ["child_update_iff"]) ++
-          -- the property also wants "entitled to nothing" refused
-          (if !implErr && rr.isEmpty then ["child_update_refuses_empty"] else []))
+          -- (an update to the empty set is accepted: shrinking a child to nothing is legitimate)
+          (if implErr == (!(all.contains rr) || !(s.has name)) then [] else ["child_update_iff"]))
       | _ =>
         (processChildUpdateIdCert s name id,
           if implErr == !(s.has name) then [] else ["child_id_iff"])
@@ -455,10 +454,11 @@ def nspOp (ws ows : List String) : String :=
     let exp := match nrOfSpecificPrefixes p with
       | some n => s!"some {n}"
       | none => "panic"
-    -- property: a payload that passes `max_length_valid` must not make krill's own arithmetic panic
-    let orc := if observed == "panic" && maxLengthValid p then ["validated_arith_total"] else []
-    let br := if exp == "panic" then (if maxLengthValid p then "none/validated" else "none/unvalidated")
-      else if p.effMax == p.pfx.len then "one" else if p.effMax - p.pfx.len == 127 then "max" else "some"
+    -- property: krill's own arithmetic never panics, on no payload
+    let orc := if observed == "panic" then ["validated_arith_total"] else []
+    let br := if !(maxLengthValid p) then "unvalidated"
+      else if p.effMax == p.pfx.len then "one" else if p.effMax - p.pfx.len ≥ 128 then "saturated"
+      else if p.effMax - p.pfx.len == 127 then "max" else "some"
     verdict "nsp" br (exp == observed) exp observed orc
 
 def covOp (ws ows : List String) : String :=
